@@ -35,7 +35,7 @@ def mk_cases(edges, tag=None):
 def run(ctx):
     rng = ctx.rng
     thorough = ctx.tier == 'thorough'
-    label_sets = gl.LABEL_SETS if thorough else gl.LABEL_SETS[:2]
+    label_sets = gl.LABEL_SETS if thorough else gl.LABEL_SETS[:3]
     for k in (2, 3, 4):
         cases = []
         for edges in gl.exhaustive_graphs(k, label_sets):
